@@ -10,6 +10,7 @@
 package main
 
 import (
+	"strings"
 	"bytes"
 	"encoding/json"
 	"fmt"
@@ -40,6 +41,7 @@ type Scenario struct {
 	Fault       []string `json:"fault,omitempty"`
 	BreakerOpen []bool   `json:"breaker_open,omitempty"`
 	Invalid bool     `json:"invalid"` // the request fails Anthropic validation (no messages)
+	Pad     int      `json:"pad,omitempty"` // the message carries this many extra bytes of text (large prompts: above the 1 MiB marks of the inspector and the retry handler)
 	Engine  string   `json:"engine"`
 	Salt    string   `json:"salt"`
 }
@@ -98,6 +100,7 @@ func runPlan(p *plan) []*Obs {
 	var eps []stack.EP
 	for i, t := range p.types {
 		b := stack.NewBackend(string(rune('A' + i)))
+		b.KeepBodies = true // large messages are classified by shape like any other
 		name := b.Name
 		b.SetScript(func(_ int, sn *stack.Seen) stack.Behaviour { return anth.OKAnswer(name, sn) })
 		bes = append(bes, b)
@@ -157,7 +160,7 @@ func runPlan(p *plan) []*Obs {
 				}
 			}
 		}
-		body := anth.AnthropicBody(anth.Model, sc.Stream, sc.Salt)
+		body := anth.AnthropicBody(anth.Model, sc.Stream, sc.Salt+strings.Repeat(" lorem ipsum", sc.Pad/12))
 		if sc.Invalid {
 			body = []byte(fmt.Sprintf(`{"model":%q,"max_tokens":64,"stream":%v,"messages":[]}`, anth.Model, sc.Stream))
 		}
@@ -252,6 +255,11 @@ func main() {
 			for _, f := range fails {
 				reqs = append(reqs, &Scenario{Types: ts, Enabled: enabled, Stream: stream, Refuse: f, Engine: engine})
 			}
+		}
+		// a large message (1.5 MiB of prompt) whose preferred endpoint refuses: the failover carries the same large request
+		if len(ts) > 1 {
+			reqs = append(reqs, &Scenario{Types: ts, Enabled: enabled, Stream: false, Refuse: pref, Engine: engine, Pad: 3 << 19},
+				&Scenario{Types: ts, Enabled: enabled, Stream: true, Refuse: make([]bool, len(ts)), Engine: engine, Pad: 3 << 19})
 		}
 		if withInvalid {
 			reqs = append(reqs, &Scenario{Types: ts, Enabled: enabled, Stream: false, Refuse: make([]bool, len(ts)), Invalid: true, Engine: engine})
